@@ -4,7 +4,7 @@
 WT="$1"; X="$2"; cd "$WT" || exit 2
 OUT="$WT/${SEED_DIR:-seed_out}/$X.confirm.txt"; : > "$OUT"
 say() { echo "$@" | tee -a "$OUT"; }
-git checkout -- . ; git clean -fdq -e seed_out -e seed_out2
+git checkout -- . ; git clean -fdq -e 'seed_out*'
 git apply "${SEED_DIR:-seed_out}/$X.patch.diff" || { say "patch does not apply"; exit 2; }
 say "== full suite with change $X"
 cargo nextest run --workspace --no-fail-fast --test-threads 6 --offline --build-jobs 6 > "$OUT.suite.log" 2>&1; s=$?
@@ -26,5 +26,5 @@ say "== demo without change"
 sh -c "$DEMO_CMD" > "$OUT.demo_without.log" 2>&1; d2=$?
 grep -E "Summary|tests run|test result" "$OUT.demo_without.log" | head -3 | tee -a "$OUT"
 say "demo_without_exit=$d2"
-git checkout -- . ; git clean -fdq -e seed_out -e seed_out2
+git checkout -- . ; git clean -fdq -e 'seed_out*'
 if [ $s -eq 0 ] && [ $d1 -ne 0 ] && [ $d2 -eq 0 ]; then say "CONFIRMED $X"; exit 0; else say "NOT-CONFIRMED $X"; exit 1; fi
